@@ -8,6 +8,7 @@ def run(ctx):
     progress.rule_ideal_early_exit(ctx)
     progress.rule_model_tracks_extension(ctx)
     progress.rule_single_computation(ctx)
+    progress.rule_selector_freshness(ctx)
     ctx.assume("a clause over the complement literals plus the selector excludes every subset of the current set (range) while the selector is assumed false")
     ctx.assume("rustc's MIR; sa/tags.py literal roles")
     return (
